@@ -3575,9 +3575,9 @@ def cli_main():
 
     if args.verbose:
         for k, v in constants.items():
-            log.info('constant: {:<25} = 0x{:08x} ({})'.format(k, v, v))
+            log.info('constant: {:<25} = 0x{:08x} ({})'.format(k, v, printable(v)))
         for k, v in labels.items():
-            log.info('label: {:<25} = 0x{:08x} ({})'.format(k, v, v))
+            log.info('label: {:<25} = 0x{:08x} ({})'.format(k, v, printable(v)))
         for d in include_dirs:
             log.info('search: {}'.format(d))
 
